@@ -323,6 +323,11 @@ try:
 except ImportError:
     pass
 try:
+    from . import mprerr_parts
+    PARTS += mprerr_parts.parts()
+except ImportError:
+    pass
+try:
     from . import mp_parts
     PARTS += mp_parts.parts("C01")
 except ImportError:
